@@ -991,7 +991,7 @@ def check_emission(chk):
 def run_programs(chk, tier):
     from . import progs
     q = tier != "thorough"
-    counts = {"clean": 24 if q else 400, "amb": 4 if q else 50, "ptrshadow": 3 if q else 30, "fieldhide": 3 if q else 30,
+    counts = {"clean": 24 if q else 300, "amb": 4 if q else 50, "ptrshadow": 3 if q else 30, "fieldhide": 3 if q else 30,
               "protoname": 2 if q else 25, "namedptr": 2 if q else 25, "memo": 4 if q else 50, "seenstr": 2 if q else 25,
               "canon-embedded": 1 if q else 8, "canon-tag": 1 if q else 8, "cmp": 2 if q else 15, "recvcopy": 2 if q else 25}
     jobs, meta = [], []
